@@ -53,6 +53,7 @@ POOL = [
     ["fpred", "p_a_ge", [_V, ["const", 2]]],
     ["and", "nary", [["cpred", "IsBig", [_V]], ["cmp", "!=", ["attr", _V, "b"], ["const", 9]]]],
     ["or", "nary", [["cmp", "==", ["attr", _V, "a"], ["const", 1]], ["truth", ["call", _V, "is_big", []]]]],
+    None,                                              # a query without any condition: an(entity(x))
     ["fpred", "p_flaky", [_V, ["const", 1]]],          # user code that can be made to raise (fault injection)
 ]
 DATA = [{"cls": c, "k": i + 1, "a": a, "b": b, "s": "x", "tags": [1], "o": 1, "ref": 0, "kids": [0],
@@ -229,7 +230,18 @@ def check(case) -> Outcome:
                     cm, mode, ctx = rule_mode(q), EQLMode.Rule, True
                 else:
                     cm, mode, ctx = q, None, True
-                cm.__enter__()
+                try:
+                    cm.__enter__()
+                except Exception as e:
+                    # a block that refuses to be entered was not entered: whatever was open before is still open, exactly
+                    # as it was (checked below like after every step)
+                    classes.add("enter_refused_" + type(e).__name__)
+                    bad = compare(step, op)
+                    if bad:
+                        bad.classes = sorted(classes)
+                        bad.nontrivial = nontrivial
+                        return bad
+                    continue
                 top = SymbolicExpression._current_parent_() if ctx else None
                 frames.append({"kind": kind, "cm": cm, "mode": mode, "ctx": ctx, "top": top})
                 epoch += 1
@@ -397,4 +409,4 @@ def check(case) -> Outcome:
 
 
 def render(case):
-    return {"pool": [A.r_cond(c) for c in POOL], "schedule": case["ops"]}
+    return {"pool": [A.r_cond(c) if c is not None else "(no condition)" for c in POOL], "schedule": case["ops"]}
